@@ -14,9 +14,9 @@ import (
 
 func init() {
 	register("C09", &propSpec{
-		level: "proof",
+		level:       "proof",
 		explanation: "For every request type makePacket/UnmarshalBinary can build and for all 64 open-flag sets: a mutating file-system sink reachable in the request's handling cone implies that the read-only gate classifies the request as not read-only (dispatch simulation of the gate's own type switch on the type the worker sees); the gate dominates handlePacket, answers EPERM (mapped to PERMISSION_DENIED), and reading requests are not gated. Sufficient for 'no mutating sink executes when readOnly is set', modulo the trusted base.",
-		run: runC09,
+		run:         runC09,
 		trusted: []string{
 			"completeness of the sink classification: every function of os, syscall, io/ioutil, x/sys not on the reading allowlist counts as mutating",
 			"VTA call graph soundness for the handling cones (no reflection, unsafe or cgo in them)",
@@ -35,11 +35,11 @@ type flagRule struct {
 }
 
 type openTable struct {
-	chain      []flagRule // if / else-if ladder; first match wins
-	chainElse  string     // "reject" when the final else returns
-	singles    []flagRule
-	unknown    []string
-	osVar      types.Object
+	chain       []flagRule // if / else-if ladder; first match wins
+	chainElse   string     // "reject" when the final else returns
+	singles     []flagRule
+	unknown     []string
+	osVar       types.Object
 	reachesOpen bool
 }
 
@@ -474,7 +474,7 @@ func runC09(c *Ctx) {
 	{
 		allowed := map[[2]*ssa.BasicBlock]bool{
 			{clsIf.Block(), clsIf.Block().Succs[1-notRoEdge]}: true, // classified read-only
-			{roIf.Block(), roIf.Block().Succs[1]}:              true, // server not read-only
+			{roIf.Block(), roIf.Block().Succs[1]}:             true, // server not read-only
 		}
 		// BFS from the classification block without the allowed edges
 		seen := map[*ssa.BasicBlock]bool{clsIf.Block(): true}
@@ -836,12 +836,12 @@ func extractErrnoTable(p *Program) (map[string]int64, string) {
 	return out, ""
 }
 
-
 // checkExtendedReadonly evaluates (*sshFxpExtendedPacket).readonly() as a function of its SpecificPacket field:
 // every possible result is classified by the nil-ness of SpecificPacket on the path that selects it.
-//   C09: when a specific packet was decoded, the answer is that packet's own readonly() (or the safe `false`);
-//   C19: when none was decoded (unknown extension name) the answer is `true`, so the read-only gate does not
-//        pre-empt the SSH_FX_OP_UNSUPPORTED reply.
+//
+//	C09: when a specific packet was decoded, the answer is that packet's own readonly() (or the safe `false`);
+//	C19: when none was decoded (unknown extension name) the answer is `true`, so the read-only gate does not
+//	     pre-empt the SSH_FX_OP_UNSUPPORTED reply.
 func checkExtendedReadonly(c *Ctx, prop string) {
 	p := c.P
 	m := p.Func("(*sshFxpExtendedPacket).readonly")
